@@ -26,7 +26,7 @@ warnings.simplefilter("ignore", SyntaxWarning)
 TOOLS = ["reformat", "reformat_str", "reformat_ft", "tidy", "star", "broken", "transform", "canonicalize", "cli_reformat", "cli_tidy"]
 
 # internal errors that belong to C03 (block selection / import-set algebra; F23, F24): counted, not judged here
-C03_EXCEPTIONS = {"LineNumberAmbiguousError", "ConflictingImportsError"}
+C03_EXCEPTIONS = {"LineNumberAmbiguousError", "ConflictingImportsError", "OutputUnparsable"}
 
 DBS = ["",
        "import os\nimport numpy as np\nfrom pkg import foo, bar\nimport x\n",
@@ -47,6 +47,11 @@ WITNESSES = [
     ("doc2", "tidy", '"""doc"""\n"second"\nx = 1\n'),
     ("top", "tidy", "x = os\n"),
     ("comment_only_first", "tidy", "# just a comment\n"),
+    ("F38", "reformat", "import os  # \\\n\n# kept?\nx = 1\n"),
+    ("F37", "reformat", "x = 1\nimport a\n    # \\\n# c\n    # \\\n\x0c"),
+    ("F39", "tidy", "# just a comment"),
+    ("F39b", "tidy", '"""doc"""'),
+    ("deco", "tidy", '"""doc"""\n@\\\ndec\ndef f(): pass\n'),
     ("nested", "reformat", "if x:\n    import b, a\nimport d, c  # gone\n# kept\nimport e\n"),
 ]
 
@@ -54,7 +59,7 @@ WITNESSES = [
 def gen_cases(ctx, n):
     cases = []
     for tag, tool, src in WITNESSES:
-        cases.append({"kind": "witness", "tag": tag, "tool": tool, "src": src, "sp": [1, 1], "params": {}, "db": 3 if tag.startswith("doc") or tag in ("top", "comment_only_first") else 0,
+        cases.append({"kind": "witness", "tag": tag, "tool": tool, "src": src, "sp": [1, 1], "params": {}, "db": 3 if tag.startswith("doc") or tag in ("top", "comment_only_first", "F39", "F39b", "deco") else 0,
                       "flags": [True, True, True]})
     i = 0
     while len(cases) < n + len(WITNESSES):
@@ -189,6 +194,9 @@ def run_cli(tool, src):
                            timeout=50, env=dict(os.environ), cwd=d)
         if p.returncode != 0:
             err = p.stderr.decode("utf-8", "replace")
+            if "SyntaxError" in err or "IndentationError" in err:
+                # the tool re-parsed its own output (F28 / F39 class: C03's compiles clause)
+                raise type("OutputUnparsable", (Exception,), {})(err[-200:])
             for name in sorted(C03_EXCEPTIONS):
                 if ("." + name) in err or (name + ":") in err:
                     raise type(name, (Exception,), {})(err[-200:])
@@ -276,37 +284,27 @@ def remainder(text, extents):
 
 
 def prologue_split(text, tree, extents):
-    """offset, in remainder coordinates, of the first top-level statement that is neither a string
-    literal statement nor preceded only by such (the prologue = leading comments, blanks, string
-    literal statements); the whole remainder if there is none."""
-    lines = text.split("\n")
+    """candidate offsets, in remainder coordinates, of the end of the prologue (leading comments,
+    blanks, string literal statements): the start of the first top-level statement that is not a
+    string literal statement - or, second reading (F9 repair), of the second string statement;
+    the end of the text if there is no such statement.  Statement starts come from the independent
+    node oracle (the "@" of a decorated definition)."""
     offs = char_offsets(text)
+    _, nodes = G.nodes_of(text)
     res = []
     seen_str = 0
-    for node in tree.body:
-        if G.node_kind(node) == "StrExpr":
+    for n in nodes:
+        pos = offs[n["start"][0] - 1] + n["start"][1] - 1
+        if n["kind"] == "StrExpr":
             seen_str += 1
-            # both readings of "docstring prologue" are accepted by the oracle: every leading string
-            # statement (current code), or only the first (F9 repair)
-            pos = offs[node.lineno - 1] + G.char_col(lines[node.lineno - 1], node.col_offset)
             if seen_str >= 2:
                 res.append(pos)
             continue
-        d = getattr(node, "decorator_list", None)
-        pos = offs[node.lineno - 1] + G.char_col(lines[node.lineno - 1], node.col_offset)
-        if d:
-            pos = min(pos, offs[d[0].lineno - 1])
         res.append(pos)
         break
     else:
         res.append(len(text))
-    # decorated: start of the line holding "@"
-    out = []
-    for pos in res:
-        if text.rfind("\n", 0, pos) + 1 < pos and text[text.rfind("\n", 0, pos) + 1:pos].strip() in ("", "@", "@("):
-            pos = text.rfind("\n", 0, pos) + 1
-        out.append(pos - sum(min(b, pos) - min(a, pos) for a, b in extents))
-    return out
+    return [pos - sum(min(b, pos) - min(a, pos) for a, b in extents) for pos in res]
 
 
 def frame_oracle(src, out):
@@ -350,6 +348,19 @@ def f38_import_comment_ends_with_backslash(c, src, out):
                 if nxt == "" or nxt.startswith("#"):
                     return True
     return False
+
+
+def f39_insert_after_unterminated_prologue(c, src, out):
+    """classifier of known finding F39 (C03 no_gluing): the module is nothing but prologue
+    (comments, blanks, string literal statements) and does not end with a newline; the new import
+    block is appended right after it, i.e. onto the last line."""
+    if src.endswith("\n") or not out.startswith(src) or out == src:
+        return False
+    try:
+        tree = ast.parse(src)
+    except (SyntaxError, ValueError):
+        return False
+    return all(G.node_kind(n) == "StrExpr" for n in tree.body)
 
 
 def f12_str_input_gains_newline(c, src, out):
@@ -447,7 +458,10 @@ def compare_one(ctx, c, im, mvs):
     r = frame_oracle(src, im["out"])
     if r is not None:
         kind, detail = r
-        if kind == "unparsable":
+        if f39_insert_after_unterminated_prologue(c, src, im["out"]):
+            ctx.known_hit("F39", "an import added to a module that is only comments/docstring and has no final newline is glued onto the last line, e.g. %r" % im["out"][max(0, len(src) - 12):len(src) + 24])
+            ctx.bump("F39")
+        elif kind == "unparsable":
             ctx.bump("output_unparsable(C03)")
         elif kind == "skip":
             ctx.bump("oracle_skip")
